@@ -69,9 +69,12 @@ func installTraceHook() {
 	}
 }
 
-func vmContext(skip, rev *big.Int) vm.Context {
+func vmContext(skip, rev, nocall *big.Int) vm.Context {
 	if skip == nil {
 		skip = new(big.Int)
+	}
+	if nocall == nil {
+		nocall = new(big.Int)
 	}
 	if rev == nil {
 		rev = new(big.Int)
@@ -84,7 +87,7 @@ func vmContext(skip, rev *big.Int) vm.Context {
 		Coinbase:    common.BytesToAddress([]byte{0xcb}),
 		GasLimit:    rootGas,
 		BlockNumber: new(big.Int).SetUint64(blockHeight),
-		Time:        big.NewInt(1700000000),
+		Time:        nocall, // variant selector: call sites that are not executed at all
 		Difficulty:  skip, // variant selector
 	}
 }
@@ -223,7 +226,7 @@ func sortAddrs(set map[common.Address]bool) []common.Address {
 // runTree executes one variant of the program on a fresh state. The deployed
 // code and the pre-state are identical for every variant; skip / rev (read by
 // the program from DIFFICULTY / GASPRICE) select twin B and the controls.
-func runTree(t *Node, skip, rev *big.Int, universe []common.Address) *runOut {
+func runTree(t *Node, skip, rev, nocall *big.Int, universe []common.Address) *runOut {
 	mem, _ := db.NewMemDatabase()
 	adbase := account.NewDatabase(mem)
 	adb, err := account.NewAccountDB(common.Hash{}, adbase)
@@ -253,11 +256,13 @@ func runTree(t *Node, skip, rev *big.Int, universe []common.Address) *runOut {
 
 	out := &runOut{adb: adb, db: adbase}
 	adb.Prepare(txHashA, common.Hash{}, 0)
-	evm := vm.NewEVMWithNFT(vmContext(skip, rev), adb, adb)
+	evm := vm.NewEVMWithNFT(vmContext(skip, rev, nocall), adb, adb)
 	curTrace = &out.Trace
 	var retLogs []*types.Log
 	var cerr error
-	if isCreateKind(t.Kind) {
+	if nocall != nil && nocall.Bit(t.ID) == 1 {
+		// the top-level call is not made at all: plain before/after comparison
+	} else if isCreateKind(t.Kind) {
 		_, _, _, retLogs, cerr = evm.Create(vm.AccountRef(originAddr), comp.rootInit, rootGas, new(big.Int))
 	} else {
 		_, _, retLogs, cerr = evm.Call(vm.AccountRef(originAddr), nodeAddr(t.ID), nil, rootGas, new(big.Int).SetUint64(t.Val))
@@ -304,10 +309,23 @@ type diff struct {
 }
 
 type pairResult struct {
-	D        diff
-	A, B     *runOut
+	D        diff // A vs B
+	D0       diff // B vs B0 (dead frames not entered at all)
+	A, B, B0 *runOut
 	Dead     []deadInfo
 	Universe []common.Address
+	Entry    int // dead frames whose entry was compared
+}
+
+// verdict: which comparison failed ("twin": A vs B, "entry": B vs B0).
+func (pr *pairResult) verdict() (string, diff) {
+	if pr.D.Class != "" {
+		return "twin", pr.D
+	}
+	if pr.D0.Class != "" {
+		return "entry", pr.D0
+	}
+	return "", diff{}
 }
 
 func refundAddrs() []common.Address {
@@ -319,30 +337,100 @@ func refundAddrs() []common.Address {
 	return out
 }
 
+// entryAll: also compare the entry of CREATE-like and AUTHCALL frames (their
+// creator's / authority's nonce bump is exempted); only sound when nothing
+// after the dead frame depends on those nonces (the systematic programs).
+var entryAll = false
+
 func comparePair(a *Node) *pairResult {
 	_, dead := pruneTree(a)
 	uni := staticUniverse(a)
 	uni = append(uni, refundAddrs()...)
-	var outer []int
+	var outer, noEntry []int
+	var ex *exempt
 	for _, d := range dead {
 		outer = append(outer, d.ID)
+		switch d.Kind {
+		case kCALL, kCALLCODE, kDELEGATE, kSTATIC:
+			noEntry = append(noEntry, d.ID)
+		default:
+			if entryAll {
+				noEntry = append(noEntry, d.ID)
+				if ex == nil {
+					ex = &exempt{nonceOf: map[string]bool{fmt.Sprintf("%x", originAddr[:]): true}, accounts: map[string]bool{}}
+					a.walk(func(n, _ *Node, _ int, _ bool) {
+						if !isCreateKind(n.Kind) {
+							ad := nodeAddr(n.ID)
+							ex.nonceOf[fmt.Sprintf("%x", ad[:])] = true
+						}
+						if n.Kind == kAUTHCALL {
+							au := authorityFor(n.ID).addr
+							ex.accounts[fmt.Sprintf("%x", au[:])] = true
+						}
+					}, nil, 0, false)
+				}
+			}
+		}
 	}
-	ra := runTree(a, nil, nil, uni)
-	rb := runTree(a, idMask(outer...), nil, uni)
+	ra := runTree(a, nil, nil, nil, uni)
+	rb := runTree(a, idMask(outer...), nil, nil, uni)
 	pr := &pairResult{A: ra, B: rb, Dead: dead, Universe: uni}
 	pr.D = diffRuns(ra, rb, uni)
+	if len(noEntry) > 0 {
+		pr.B0 = runTree(a, idMask(outer...), nil, idMask(noEntry...), uni)
+		pr.D0 = diffRunsEx(rb, pr.B0, uni, ex)
+		pr.Entry = len(noEntry)
+	}
 	return pr
 }
 
-func diffRuns(ra, rb *runOut, uni []common.Address) diff {
-	if ra.Err != rb.Err {
+// exemptions for the frame-entry comparison of CREATE-like / AUTHCALL frames:
+// the creator's (authority's) nonce legitimately stays bumped when the frame fails.
+type exempt struct {
+	nonceOf  map[string]bool // hex addresses whose nonce lines are ignored
+	accounts map[string]bool // hex addresses ignored in the set of existing accounts
+}
+
+func (e *exempt) filterLines(l []string) []string {
+	if e == nil {
+		return l
+	}
+	var out []string
+	for _, x := range l {
+		sp := strings.IndexByte(x, ' ')
+		if sp > 0 && (e.accounts[x[:sp]] || (e.nonceOf[x[:sp]] && (strings.HasPrefix(x[sp+1:], "nonce=") || strings.HasPrefix(x[sp+1:], "empty=") || strings.HasPrefix(x[sp+1:], "exist=")))) {
+			continue
+		}
+		out = append(out, x)
+	}
+	return out
+}
+
+func (e *exempt) filterAccounts(l []string) []string {
+	if e == nil {
+		return l
+	}
+	var out []string
+	for _, x := range l {
+		if !e.accounts[x] {
+			out = append(out, x)
+		}
+	}
+	return out
+}
+
+func diffRuns(ra, rb *runOut, uni []common.Address) diff { return diffRunsEx(ra, rb, uni, nil) }
+
+func diffRunsEx(ra, rb *runOut, uni []common.Address, ex *exempt) diff {
+	if ra.Err != rb.Err && ex == nil {
 		return diff{"top-level-result", ra.Err, rb.Err}
 	}
 	if !sameStrings(ra.Logs, rb.Logs) {
 		x, y := firstDiff(ra.Logs, rb.Logs)
 		return diff{"logs", x, y}
 	}
-	if ra.Root != rb.Root || !sameStrings(ra.Accounts, rb.Accounts) {
+	accA, accB := ex.filterAccounts(ra.Accounts), ex.filterAccounts(rb.Accounts)
+	if ra.Root != rb.Root || !sameStrings(accA, accB) {
 		// refine with the post-commit accessor answers over static + enumerated accounts
 		set := map[common.Address]bool{}
 		for _, a := range uni {
@@ -355,12 +443,12 @@ func diffRuns(ra, rb *runOut, uni []common.Address) diff {
 				}
 			}
 		}
-		if !sameStrings(ra.Accounts, rb.Accounts) {
-			x, y := firstDiffSet(ra.Accounts, rb.Accounts)
+		if !sameStrings(accA, accB) {
+			x, y := firstDiffSet(accA, accB)
 			return diff{"accounts", x, y}
 		}
 		all := sortAddrs(set)
-		x, y := firstDiff(sweep(ra.adb, all, false), sweep(rb.adb, all, false))
+		x, y := firstDiff(ex.filterLines(sweep(ra.adb, all, false)), ex.filterLines(sweep(rb.adb, all, false)))
 		cls := "state-root"
 		for _, f := range []string{"nonce", "balance", "codehash", "codesize", "storage", "exist"} {
 			if strings.Contains(x, " "+f) {
@@ -369,12 +457,16 @@ func diffRuns(ra, rb *runOut, uni []common.Address) diff {
 			}
 		}
 		if x == "" && y == "" {
+			if ex != nil {
+				goto pre // only exempted lines differ
+			}
 			x, y = fmt.Sprintf("root=%x", ra.Root[:]), fmt.Sprintf("root=%x", rb.Root[:])
 		}
 		return diff{cls, x, y}
 	}
-	if !sameStrings(ra.Sweep1, rb.Sweep1) {
-		x, y := firstDiff(ra.Sweep1, rb.Sweep1)
+pre:
+	if s1a, s1b := ex.filterLines(ra.Sweep1), ex.filterLines(rb.Sweep1); !sameStrings(s1a, s1b) {
+		x, y := firstDiff(s1a, s1b)
 		cls := "accessor"
 		for _, f := range []string{"transient", "suicided", "empty", "nonce", "balance", "codehash", "codesize", "storage", "exist"} {
 			if strings.Contains(x, " "+f) {
@@ -421,14 +513,21 @@ func controlEffective(t *Node, pr *pairResult, id int) bool {
 			others = append(others, d.ID)
 		}
 	}
-	rc := runTree(t, idMask(others...), idMask(subtreeIDs(t.find(id))...), pr.Universe)
+	rc := runTree(t, idMask(others...), idMask(subtreeIDs(t.find(id))...), nil, pr.Universe)
 	rb := pr.B
 	return rc.Root != rb.Root || !sameStrings(rc.Logs, rb.Logs) || !sameStrings(rc.Accounts, rb.Accounts)
 }
 
 // shrink removes items while the same class of difference persists.
-func shrink(t *Node, class string, budget int) *Node {
+func shrink(t *Node, which, class string, budget int) *Node {
 	cur := t.clone()
+	same := func() bool {
+		if _, dead := pruneTree(cur); len(dead) == 0 {
+			return false
+		}
+		w, d := comparePair(cur).verdict()
+		return w == which && classGroup(d.Class) == classGroup(class)
+	}
 	for pass := 0; pass < 4; pass++ {
 		changed := false
 		var nodes []*Node
@@ -444,7 +543,7 @@ func shrink(t *Node, class string, budget int) *Node {
 				saved := n.Items
 				n.Items = append(append([]Item{}, saved[:i]...), saved[i+1:]...)
 				budget--
-				if _, dead := pruneTree(cur); len(dead) > 0 && classGroup(comparePair(cur).D.Class) == classGroup(class) {
+				if same() {
 					changed = true
 				} else {
 					n.Items = saved
@@ -470,7 +569,7 @@ func shrink(t *Node, class string, budget int) *Node {
 				ni = append(ni, saved[i+1:]...)
 				n.Items = ni
 				budget--
-				if _, dead := pruneTree(cur); len(dead) > 0 && classGroup(comparePair(cur).D.Class) == classGroup(class) {
+				if same() {
 					changed = true
 				} else {
 					n.Items = saved
@@ -488,7 +587,7 @@ func shrink(t *Node, class string, budget int) *Node {
 			v := n.Val
 			n.Val = 0
 			budget--
-			if classGroup(comparePair(cur).D.Class) == classGroup(class) {
+			if same() {
 				changed = true
 			} else {
 				n.Val = v
@@ -507,7 +606,8 @@ type twinStats struct {
 }
 
 type twinWitness struct {
-	Oracle  string `json:"oracle"`
+	Oracle   string `json:"oracle"`
+	EntryAll bool   `json:"entry_all,omitempty"`
 	Tree    *Node  `json:"tree"`
 	Minimal *Node  `json:"minimal,omitempty"`
 	Class   string `json:"class"`
@@ -520,7 +620,7 @@ type twinWitness struct {
 func judgeTree(r *mon.Run, st *twinStats, t *Node, label string) (nontrivial bool) {
 	r.Count("twin_pairs", 1)
 	var pr *pairResult
-	if r.Guard("C12:twin", map[string]interface{}{"oracle": "twin", "tree": t}, func() { pr = comparePair(t) }) {
+	if r.Guard("C12:twin", map[string]interface{}{"oracle": "twin", "entry_all": entryAll, "tree": t}, func() { pr = comparePair(t) }) {
 		return false
 	}
 	expected, cells := planTrace(t)
@@ -546,8 +646,8 @@ func judgeTree(r *mon.Run, st *twinStats, t *Node, label string) (nontrivial boo
 		if debugOn {
 			fmt.Printf("GASSKEW %s\n  expected %v\n  A %v\n  B %v\n", t.shape(true), expected, pr.A.Trace, pr.B.Trace)
 		}
-		if pr.D.Class != "" {
-			r.Inconclusive("twin pair differs (%s) but a frame ran out of gas that was not planned to: %s", pr.D.Class, t.shape(true))
+		if w, d := pr.verdict(); w != "" {
+			r.Inconclusive("twin pair differs (%s %s) but a frame ran out of gas that was not planned to: %s", w, d.Class, t.shape(true))
 		}
 		return false
 	}
@@ -560,7 +660,10 @@ func judgeTree(r *mon.Run, st *twinStats, t *Node, label string) (nontrivial boo
 	}
 	r.Count("twin_frames_failed_observed", int64(len(pr.A.Trace)))
 
-	if pr.D.Class != "" {
+	if pr.Entry > 0 {
+		r.Count("twin_entry_comparisons", int64(pr.Entry))
+	}
+	if w, _ := pr.verdict(); w != "" {
 		reportTwin(r, st, t, pr)
 	}
 
@@ -568,7 +671,7 @@ func judgeTree(r *mon.Run, st *twinStats, t *Node, label string) (nontrivial boo
 	eff := map[int]bool{}
 	for _, d := range pr.Dead {
 		ok := false
-		if r.Guard("C12:twin-control", map[string]interface{}{"oracle": "twin", "tree": t}, func() { ok = controlEffective(t, pr, d.ID) }) {
+		if r.Guard("C12:twin-control", map[string]interface{}{"oracle": "twin", "entry_all": entryAll, "tree": t}, func() { ok = controlEffective(t, pr, d.ID) }) {
 			continue
 		}
 		r.Count("twin_controls", 1)
@@ -605,6 +708,7 @@ func judgeTree(r *mon.Run, st *twinStats, t *Node, label string) (nontrivial boo
 
 func reportTwin(r *mon.Run, st *twinStats, t *Node, pr *pairResult) {
 	r.Count("twin_differences", 1)
+	which, d := pr.verdict()
 	// attribute to an already minimised signature when removing its culprit ops heals the case
 	var sigs []string
 	for sig := range st.seenSigs {
@@ -614,29 +718,43 @@ func reportTwin(r *mon.Run, st *twinStats, t *Node, pr *pairResult) {
 	for _, sig := range sigs {
 		culprits := st.seenSigs[sig]
 		h := removeLeafOps(t, culprits)
-		if _, dead := pruneTree(h); len(dead) == 0 || comparePair(h).D.Class == "" {
-			r.Violation(sig, "same minimal cause as an earlier witness", twinWitness{Oracle: "twin", Tree: t, Class: pr.D.Class, InA: pr.D.A, InB: pr.D.B, Shape: t.shape(true)})
+		healed := false
+		if _, dead := pruneTree(h); len(dead) == 0 {
+			healed = true
+		} else if w, _ := comparePair(h).verdict(); w == "" {
+			healed = true
+		}
+		if healed {
+			r.Violation(sig, "same minimal cause as an earlier witness", twinWitness{Oracle: "twin", EntryAll: entryAll, Tree: t, Class: which + ":" + d.Class, InA: d.A, InB: d.B, Shape: t.shape(true)})
 			return
 		}
 	}
 	min := t
 	if st.shrinks < 60 {
 		st.shrinks++
-		min = shrink(t, pr.D.Class, 400)
+		min = shrink(t, which, d.Class, 400)
 	}
 	mp := comparePair(min)
-	if mp.D.Class == "" { // cannot happen (shrink keeps the class); fall back to the original
-		min, mp = t, pr
+	mw, md := mp.verdict()
+	if mw == "" { // cannot happen (shrink keeps the class); fall back to the original
+		min, mp, mw, md = t, pr, which, d
 	}
 	sig := twinSignature(min, mp)
 	st.seenSigs[sig] = leafOps(min)
-	what := fmt.Sprintf("program A and its twin B (dead frame bodies removed) end differently [%s]: A: %s | B: %s | minimal program %s",
-		mp.D.Class, mp.D.A, mp.D.B, min.shape(true))
-	r.Violation(sig, what, twinWitness{Oracle: "twin", Tree: t, Minimal: min, Class: mp.D.Class, InA: mp.D.A, InB: mp.D.B, Shape: min.shape(true)})
+	var what string
+	if mw == "twin" {
+		what = fmt.Sprintf("program A and its twin B (dead frame bodies skipped) end differently [%s]: A: %s | B: %s | minimal program %s",
+			md.Class, md.A, md.B, min.shape(true))
+	} else {
+		what = fmt.Sprintf("twin B (dead frame entered, fails at once) and twin B0 (dead frame not entered at all) end differently [%s]: B: %s | B0: %s | minimal program %s",
+			md.Class, md.A, md.B, min.shape(true))
+	}
+	r.Violation(sig, what, twinWitness{Oracle: "twin", EntryAll: entryAll, Tree: t, Minimal: min, Class: mw + ":" + md.Class, InA: md.A, InB: md.B, Shape: min.shape(true)})
 }
 
 // twinSignature: C12:<twin|static>:<class group>:<dead frame kind/mode>:<culprit ops> of the minimal program.
 func twinSignature(min *Node, mp *pairResult) string {
+	which, vd := mp.verdict()
 	prefix := "twin"
 	allStatic := len(mp.Dead) > 0
 	for _, d := range mp.Dead {
@@ -647,7 +765,7 @@ func twinSignature(min *Node, mp *pairResult) string {
 	if allStatic {
 		prefix = "static"
 	}
-	group := classGroup(mp.D.Class)
+	group := classGroup(vd.Class)
 	// culprit ops: effects left in the minimal program's dead frames (frame kinds when no effect is left)
 	set := map[string]bool{}
 	var frames []string
@@ -690,6 +808,14 @@ func twinSignature(min *Node, mp *pairResult) string {
 	sig := fmt.Sprintf("C12:%s:%s:%s:%s", prefix, group, strings.Join(dedup(frames), "+"), strings.Join(ops, "+"))
 	if prefix == "static" {
 		sig = fmt.Sprintf("C12:static:%s:%s", group, strings.Join(ops, "+"))
+	}
+	if which == "entry" {
+		var fr []string
+		for _, d := range mp.Dead {
+			fr = append(fr, d.Kind+"/"+d.Mode)
+		}
+		sort.Strings(fr)
+		sig = fmt.Sprintf("C12:entry:%s:%s", group, strings.Join(dedup(fr), "+"))
 	}
 	if len(sig) > 140 {
 		sig = sig[:140]
